@@ -252,7 +252,7 @@ def paced(script: List[list]) -> List[list]:
     that the input determines (the reader finishing a read and the application it just woke), so the applications react a
     few virtual milliseconds after whatever they waited for, and never at an instant at which the client acts (client
     actions sit on a grid that is disjoint from k * PACE offsets)."""
-    out: List[list] = []
+    out: List[list] = [["sleep", PACE]]          # an application that acts at once does so after the read that started it
     for st in script:
         if st[0] == "send":
             out.append(["sleep", PACE])
